@@ -46,7 +46,7 @@ def run(vc, tier):
     cat = vc.catalogue('quick')
     leg = legacy_records(vc)
     src = ['harness/c03_untrusted.c', 'ref/edu_decoder.c']
-    args = ['--cat', cat, '--stride', 6 if tier == 'quick' else 1, '--maxlen', 420 if tier == 'quick' else 1000, '--allvals', 20 if tier == 'quick' else 96, '--D', 0]
+    args = ['--cat', cat, '--stride', 6 if tier == 'quick' else 1, '--maxlen', 420 if tier == 'quick' else 1000, '--allvals', 20 if tier == 'quick' else 96, '--D', 0, '--parts', 1 if tier == 'quick' else 8, '--exec-timeout', 20000 if tier == 'quick' else 180000]
     if leg:
         args += ['--extra', leg]
     r = c.run_vx_unit('c03-substitutions', src, 'asan', args, share=0.6)
